@@ -40,9 +40,11 @@ pub struct C13;
 
 const WORDS: &[&str] = &[
     "a", "b", "ab", "A", "the", "cat", "eats", "fish", "ba", "x", "´x", "x´", "ﬁsh", "é", "e\u{301}", "中", "a.", "¨",
+    // multi-code-point clusters that NFKC does not compose (grapheme index != code-point index)
+    "👍🏽", "x\u{301}b", "🇩🇪a",
 ];
 
-const PLAIN_WORDS: &[&str] = &["a", "b", "ab", "the", "cat", "eats", "fish", "ba", "x", "A"];
+const PLAIN_WORDS: &[&str] = &["a", "b", "ab", "the", "cat", "eats", "fish", "ba", "x", "A", "👍🏽", "x\u{301}b"];
 
 fn sentence(max: usize) -> BoxedStrategy<Vec<String>> {
     proptest::collection::vec(select(WORDS).prop_map(str::to_string), 0..=max).boxed()
